@@ -248,7 +248,7 @@ def handle : String → Option (P String)
       let closed ← bool; let inp ← path; let out ← path; let out2 ← path; done
       if !forwardOnly closed inp then pure "ok skip input-not-forward-only" else
       pure (okIf (out2 == out) "not idempotent")
-  | "SPEC_AREA" => some do
+  | "SPEC_TRIM_AREA" => some do
       let inp ← path; let out ← path; done
       pure (okIf (shoelace2 inp == shoelace2 out) s!"shoelace2 {shoelace2 inp} became {shoelace2 out}")
   | "SPEC_RDP_EPS" => some do
